@@ -24,7 +24,7 @@ META = dict(
                       "{scale, to_affine, x, y, double, + Q, == Q, -P, 2*P with lazily built table, "
                       "getstate/setstate}; observers {x/y, == fresh, + fresh Q, 3*P}; three-point "
                       "equivalence laws incl. affine Point and INFINITY operands",
-                thorough="also p = 7 (order 13)"),
+                thorough="all 40 mutator/observer pairs on p = 5 (one of them takes ~15 min)"),
     stubs=["pow(a, -1, p): table of inverses"],
     outside=["histories are covered through the one-step argument only for states that are "
              "representations (X, Y, Z) of a curve point with canonical coordinates and an "
@@ -201,7 +201,7 @@ def key_precompute():
 
 def jobs(tier, seed):
     js = [Job("keypre", "harness.c19:key_precompute")]
-    ps = (5,) if tier == "quick" else (5, 7)
+    ps = (5,)
     for p in ps:
         for mix in ("jacobi", "affine"):
             for part in ("basic", "trans", "neg"):
